@@ -179,7 +179,7 @@ def main(tier):
                         "are computed by TLC",
                         "hooks: %s" % ("diag/stmt/split events" if bld.hooks else "unavailable (black-box replay only)")]
     tasks = []
-    for f in FAMILIES:
+    for f in sorted(FAMILIES, key=lambda x: {"main": 0, "expecthist": 1, "expect": 2}.get(x, 3)):   # longest runs first (6 at a time)
         tasks.append(("mc_" + f, _cfg("mc_%s.cfg" % f, mc_cfg(f, tier, True, False)), False))
         tasks.append(("gen_" + f, _cfg("gen_%s.cfg" % f, mc_cfg(f, tier, False, True)), True))
 
